@@ -85,14 +85,19 @@ FLUSH_CASE = r"""
 """
 
 
-def run_cases(d, exprs, prelude_extra="", imports="", timeout=900, extra_env=None, chunk=1500):
+def run_cases(d, exprs, prelude_extra="", imports="", timeout=900, extra_env=None, chunk=1500, max_crashes=12):
     """like vlib.scm.run_cases, but every answer is flushed before the next case starts (a sanitizer abort loses
     buffered output, which would blame the wrong case), and a dead process is restarted after the guilty case"""
     res = [None] * len(exprs)
     os.makedirs(B.SCRATCH, exist_ok=True)
     todo = [(lo, min(len(exprs), lo + chunk)) for lo in range(0, len(exprs), chunk)]
+    crashes = 0
     while todo:
         lo, hi = todo.pop(0)
+        if crashes >= max_crashes:      # enough failing inputs: the rest of the stream is not run
+            for i in range(lo, hi):
+                res[i] = "SKIPPED"
+            continue
         body = [scm.PRELUDE, imports, FLUSH_CASE, prelude_extra]
         body += ["(verif-fcase %d %s)" % (i, exprs[i]) for i in range(lo, hi)]
         body.append('(write-string "DONE")(newline)')
@@ -118,6 +123,7 @@ def run_cases(d, exprs, prelude_extra="", imports="", timeout=900, extra_env=Non
         if not done and last + 1 < hi:
             bad = last + 1
             res[bad] = "TIMEOUT" if rc == "TIMEOUT" else "CRASH rc=%s %s" % (rc, _asan_summary(err))
+            crashes += 1
             if bad + 1 < hi:
                 todo.insert(0, (bad + 1, hi))
     return res
@@ -337,7 +343,7 @@ def run(ctx):
         if m is None:
             n_probe += 1
             ctx.count(1, key=None)
-            if r != PROBE_EXPECT:
+            if r != PROBE_EXPECT and r != "SKIPPED":
                 ctx.violation("probe-after-error", input=dict(previous_error_case=last_err, probe="(verif-probe)"),
                               expected=PROBE_EXPECT, observed=r,
                               replay=replay_cmd(d, "(begin (guard (e (#t #f)) %s) (verif-probe))" % (last_err or "#f")))
@@ -347,6 +353,8 @@ def run(ctx):
         k = _z(mo_run[j])
         verdict = relax(prim, args, mo_spec[j])
         j += 1
+        if r == "SKIPPED":
+            continue
         crashed = r is None or r.startswith("CRASH") or r == "TIMEOUT"
         is_err = (r or "").startswith("ERR")
         nontriv = verdict != "V" or any(a["cls"] in ("other",) or a.get("imm") or a.get("extra") for a in args) or _near(args)
@@ -629,6 +637,8 @@ def stack_stream(ctx, exe, d, rng, consts):
     for e, x, r in zip(exprs, exp, io):
         ctx.count(1, key=e)
         rep = replay_cmd(d, "(begin %s %s)" % (pre, e))
+        if r == "SKIPPED":
+            continue
         if r is None or r.startswith("CRASH") or r == "TIMEOUT":
             ctx.violation("stack:%s:crash" % e.split()[0].strip("("), input=e, expected=x, observed=r, replay=rep)
         elif r != x:
